@@ -1084,6 +1084,26 @@ func corpus() []*wcase {
 			{Op: "getwf", Addr: keys[2].addr, Want: keys[2].addr}, // no key entry: must not use A's key file
 			{Op: "signtd", Addr: keys[0].addr, Want: keys[0].addr}, {Op: "getwf", Addr: keys[1].addr, Want: keys[1].addr}})
 	}
+	// (referee round) key material that is no key: the scalar zero, as 32 zero bytes and as the group order n
+	// (btcec reduces modulo n).  Its "public key" is the point at infinity, whose address is
+	// 0x3f17f1962b36e491b30a40b2405849e597ba5fb5; before fix 362ef7a the wallet listed the file, loaded it,
+	// passed the ownership check and returned signatures that recover to no address.  Now every request fails.
+	nBytes, _ := hex.DecodeString("fffffffffffffffffffffffffffffffebaaedce6af48a03bbfd25e8cd0364141")
+	for zi, zpriv := range [][]byte{make([]byte, 32), nBytes} {
+		za := addrOfPriv(zpriv)
+		zh := hex.EncodeToString(za)
+		zq := []byte(`"0x` + zh + `"`)
+		mk([]string{"corpus zero-key", "corpus order-key"}[zi], plain, []fsEntry{
+			{Path: "k/" + zh + ".key.json", Kind: kFile, Content: v3WriteVariant(r, zpriv, []byte("a"), za, zi)},
+			{Path: "k/" + zh + ".pwd", Kind: kFile, Content: []byte("a")},
+			{Path: "k/" + hx(1) + ".key.json", Kind: kFile, Content: v3Write(r, keys[1].priv, []byte("a"), keys[1].addr)},
+			{Path: "k/" + hx(1) + ".pwd", Kind: kFile, Content: []byte("a")},
+		}, []*hop{
+			{Op: "sign", Raw: zq, Want: za}, {Op: "signtd", Addr: za, Want: za}, {Op: "getwf", Addr: za, Want: za},
+			{Op: "sign", Raw: q(1), Want: keys[1].addr}, {Op: "sign", Raw: zq, Want: za, Tx1559: true},
+			{Op: "refresh"}, {Op: "accounts"}, {Op: "getwf", Addr: za, Want: za}})
+		out[len(out)-1].Stress = append(out[len(out)-1].Stress, za)
+	}
 	// the same address under three spellings: one account, backed by the last file listed
 	mk("corpus spellings", plain, []fsEntry{
 		{Path: "k/" + hx(0) + ".key.json", Kind: kFile, Content: right},
